@@ -143,13 +143,24 @@ pub struct Sink {
     pub raw: u64,
     pub distinct: u64,
     pub limit: u64,
+    /// replay mode (env VF_REPLAY_NEEDLES = file with one needle per line): keep only the lines that contain every
+    /// needle, i.e. the records of exactly the stimulus of a replay file
+    pub needles: Option<Vec<String>>,
+}
+pub fn replay_needles() -> Option<Vec<String>> {
+    std::env::var("VF_REPLAY_NEEDLES").ok().and_then(|p| std::fs::read_to_string(p).ok()).map(|t| t.lines().filter(|l| !l.is_empty()).map(|l| l.to_string()).collect())
 }
 impl Sink {
     pub fn create(path: &str) -> Self {
-        Sink { out: std::io::BufWriter::new(std::fs::File::create(path).expect("create out")), seen: HashSet::new(), raw: 0, distinct: 0, limit: u64::MAX }
+        Sink { out: std::io::BufWriter::new(std::fs::File::create(path).expect("create out")), seen: HashSet::new(), raw: 0, distinct: 0, limit: u64::MAX, needles: replay_needles() }
     }
     pub fn put(&mut self, line: String) -> bool {
         self.raw += 1;
+        if let Some(ns) = &self.needles {
+            if !ns.iter().all(|n| line.contains(n.as_str())) {
+                return false;
+            }
+        }
         let mut h1 = std::collections::hash_map::DefaultHasher::new();
         line.hash(&mut h1);
         let mut h2 = std::collections::hash_map::DefaultHasher::new();
